@@ -50,7 +50,7 @@ static std::string oracle(const Case& c) {
         const lib::LangEntry* le = REG->by_name(c.get("lang")); unsigned coin = (unsigned)c.u("coin") & 2047u;
         if (le) { std::string ph = lib::encode(s, le->lang, coin); lib::Image di; int sd = lib::decode_x(ph, coin, le->lang, &di); if (sd != 0) return std::string("phrase of the seed after crypt decodes to ") + model::status_name(sd); if (di != img) return "encode/decode of the seed after crypt changes it"; }
     }
-    s.reset(); if (!k.live.empty()) return "seed blocks still allocated"; if (!k.ledger_errors.empty()) return "allocator ledger: " + k.ledger_errors[0];
+    s.reset();  
     bool nt = topbits || nonascii || chain.size() >= 2;
     ev.eval(); if (topbits) ev.count("mask-top-bits-of-byte18-set"); if (nonascii) ev.count("password:non-ascii"); if (pw.empty()) ev.count("password:empty"); if (other_form != pw) ev.count("password:has-other-canonical-form");
     if (chain.size() >= 2) ev.count("chain>=2"); if (only_same && same_parity == 0) ev.count("involution-checked"); if (!only_same) ev.count("wrong-password-used");
